@@ -44,9 +44,11 @@ _regenerate_helpers = _regen.hook(TRUSTED, ['helpers'])   # py2v: regenerate coq
 # py2v_sum: regenerate coq/Gen/SummaryGen.v (biom/util.py compute_counts_per_sample_stats) as well
 _SUM_TRUSTED = []
 # and coq/Gen/SummaryTableGen.v (biom/table.py Table.is_empty, Table.get_table_density)
-_regenerate_summary = _regen_sum.hook(_SUM_TRUSTED, ['summary', 'density'], 'coq/Model/Summary.v (r_stats, r_empty, r_density)',
-                                      'coq/Proofs/GenBridgeSummaryProofs.v, coq/Proofs/GenBridgeSummaryTableProofs.v',
-                                      vocab='coq/Gen/SumPrelude.v, coq/Gen/SumTablePrelude.v')
+# and coq/Gen/SummaryReportGen.v (biom/cli/table_summarizer.py _summarize_table: which figure under which label, in which order)
+_regenerate_summary = _regen_sum.hook(_SUM_TRUSTED, ['summary', 'density', 'report'],
+                                      'coq/Model/Summary.v (r_stats, r_empty, r_density, r_report)',
+                                      'coq/Proofs/GenBridgeSummaryProofs.v, GenBridgeSummaryTableProofs.v, GenBridgeSummaryReportProofs.v',
+                                      vocab='coq/Gen/SumPrelude.v, coq/Gen/SumTablePrelude.v, coq/Gen/SumReportPrelude.v')
 
 
 def regenerate():
